@@ -1,0 +1,26 @@
+//go:build verif
+
+package core
+
+// Contracts for connection.go / message.go pools, read by the rcvc verifier in /verif (comment-only; adds no code).
+
+//@ func conn.Fd
+//@   flags pure
+//@   ensures result == c.fd
+
+//@ func conn.Peek
+//@   flags trusted
+//@   modifies nothing
+//@   ensures n <= 0 ==> err == nil
+
+//@ func conn.Discard
+//@   flags trusted
+//@   modifies conn.buffer, ring.Buffer.r, ring.Buffer.w, ring.Buffer.isEmpty, elastic.RingBuffer.rb
+
+//@ func msgPool.Get
+//@   flags trusted
+//@   modifies nothing
+//@   ensures result != nil
+
+//@ func ProxyStats.ReqCmdIncr
+//@   flags trusted pure
